@@ -166,6 +166,14 @@ impl RefState {
                 same(&a[0], &a[1])?;
                 ops::mul(&a[0], &a[1])?
             }
+            Stack(_) => {
+                if a.iter().any(|x| x.dims != a[0].dims) {
+                    return Err(RefErr::Refuse("nested arrays of different shapes".into()));
+                }
+                let mut dims = vec![a.len()];
+                dims.extend(a[0].dims.iter());
+                T::new(dims, a.iter().flat_map(|x| x.vals.iter().map(|v| v.detached())).collect())
+            }
             CScale(k) => ops::scale(&a[0], *k),
             CBAdd => ops::add(&a[0], &a[1])?,
             CBMul => ops::mul(&a[0], &a[1])?,
@@ -184,7 +192,7 @@ impl RefState {
             return Ok(self.handle(args[0]).clone());
         }
         let t = self.eval(op, args)?;
-        let any_tracked = args.iter().any(|&h| self.handle(h).tracked);
+        let any_tracked = !op.never_tracked() && args.iter().any(|&h| self.handle(h).tracked);
         let exact = op.is_exact() && args.iter().all(|&h| self.node_of(h).exact) && t.vals.iter().all(|x| is_exact_value(x.v));
         let edges: Vec<(usize, bool, bool)> = if any_tracked {
             args.iter()
@@ -205,7 +213,9 @@ impl RefState {
     pub fn apply(&mut self, op: &OpKind, args: &[usize]) -> R<usize> {
         let h = self.apply_detached(op, args)?;
         if op.consumes_operand() {
-            self.handles[args[0]] = None;
+            for a in args {
+                self.handles[*a] = None;
+            }
         }
         self.handles.push(Some(h));
         Ok(self.handles.len() - 1)
